@@ -135,7 +135,7 @@ pub fn mutate(r: &mut Rng, enc: &[u8], other: &[u8]) -> (Vec<u8>, &'static str) 
 	}
 }
 
-fn b(x: bool) -> &'static str {
+pub fn b(x: bool) -> &'static str {
 	if x {
 		"true"
 	} else {
@@ -187,7 +187,7 @@ pub fn push_run<T: Reg>(cx: &mut Cx, name: &str, desc: &str, inp: &[u8], known: 
 	r
 }
 
-fn parse_layers(s: &str) -> Vec<Layer> {
+pub fn parse_layers(s: &str) -> Vec<Layer> {
 	s.split(',')
 		.filter(|x| !x.is_empty())
 		.map(|x| match &x[..1] {
@@ -528,6 +528,7 @@ fn oracles_on_input<T: Reg>(cx: &mut Cx, name: &str, inp: &[u8], r: &DRes<T>) {
 				("ioreader-1", dec_reader(inp, 1)),
 				("ioreader-3", dec_reader(inp, 3)),
 				("ioreader-4097", dec_reader(inp, 4097)),
+				("ioreader-eintr", dec_reader_eintr(inp, 2)),
 				("unknown-len", dec_rec(inp, false).0),
 				("known-len-rec", dec_rec(inp, true).0),
 				("from-bytes", from_bytes::<T>(inp)),
